@@ -1,0 +1,11 @@
+//go:build verif
+
+package vedirect
+
+import "time"
+
+// VerifSetLastSent sets the time of the last transmission. It makes the idle/flush decision of sendReceive
+// reproducible for verification harnesses without sleeping. Only compiled with the build tag "verif".
+func (vd *Vedirect) VerifSetLastSent(t time.Time) {
+	vd.lastSent = t
+}
